@@ -48,6 +48,15 @@ type message struct {
 	name  string
 	slots []slot
 	keys  []string
+	cases []readerCase
+}
+
+// readerCase: one `case` clause of a hand-written JSON reader — its labels, the Go field of the message it assigns
+// (first field / one-of alternative named in the clause body) and the reader helpers it calls (sorted, unique).
+type readerCase struct {
+	labels []string
+	target string
+	calls  []string
 }
 
 type enumVal struct {
@@ -370,9 +379,98 @@ func initTables() {
 	roots = append(append(roots, req...), resp...)
 }
 
+// readerCalls: the helper calls that decide HOW a JSON value is read. Anything else in a clause (append, AppendEmpty,
+// ReportError, Sprintf, SetEmpty*, conversions) is not a reader and is ignored.
+var readerCalls = map[string]bool{
+	"json.ReadUint64": true, "json.ReadInt64": true, "json.ReadUint32": true, "json.ReadInt32": true, "json.ReadFloat64": true,
+	"json.ReadEnumValue": true, "json.ReadAttribute": true, "json.ReadValue": true, "json.ReadResource": true, "json.ReadScope": true,
+	"iter.ReadString": true, "iter.ReadBool": true, "iter.ReadInt32": true, "iter.ReadUint32": true, "iter.ReadInt64": true,
+	"iter.ReadUint64": true, "iter.ReadFloat64": true, "iter.ReadStringAsSlice": true, "iter.ReadArrayCB": true,
+	"base64.DecodeString": true, "UnmarshalJSON": true, "unmarshalJsoniter": true, "readArray": true, "readKvlistValue": true,
+}
+
+// callName normalises a call to one of the readerCalls names ("" if it is not one). localFns: functions of the same file
+// (a clause may go through a one-line local helper such as readAggregationTemporality: its calls are inlined).
+func callName(c *ast.CallExpr, inJSONPkg bool) string {
+	switch f := c.Fun.(type) {
+	case *ast.SelectorExpr:
+		x, _ := f.X.(*ast.Ident)
+		switch {
+		case f.Sel.Name == "DecodeString":
+			return "base64.DecodeString"
+		case f.Sel.Name == "UnmarshalJSON" || f.Sel.Name == "unmarshalJsoniter":
+			return f.Sel.Name
+		case x != nil && x.Name == "json":
+			return "json." + f.Sel.Name
+		case x != nil && strings.HasPrefix(f.Sel.Name, "Read"):
+			return "iter." + f.Sel.Name // every jsoniter.Iterator variable: iter, or the callback parameter
+		}
+	case *ast.Ident:
+		if inJSONPkg && strings.HasPrefix(f.Name, "Read") {
+			return "json." + f.Name
+		}
+		return f.Name
+	}
+	return ""
+}
+
+// analyseClause finds the reader calls and the assigned field of one case clause. fieldNames: Go names of the plain fields
+// and one-of alternatives of the message.
+func analyseClause(where string, body []ast.Stmt, fieldNames map[string]bool, localFns map[string]*ast.FuncDecl, inJSONPkg bool) (string, []string) {
+	calls := map[string]bool{}
+	var targets []string
+	addTarget := func(n string) {
+		n = strings.TrimPrefix(n, "SetEmpty")
+		if fieldNames[n] {
+			for _, t := range targets {
+				if t == n {
+					return
+				}
+			}
+			targets = append(targets, n)
+		}
+	}
+	var visit func(n ast.Node, depth int)
+	visit = func(root ast.Node, depth int) {
+		ast.Inspect(root, func(n ast.Node) bool {
+			switch x := n.(type) {
+			case *ast.CallExpr:
+				name := callName(x, inJSONPkg)
+				if readerCalls[name] {
+					calls[name] = true
+				} else if fd := localFns[name]; fd != nil && depth == 0 && fd.Body != nil {
+					visit(fd.Body, 1) // one-line local helper
+				}
+				if se, ok := x.Fun.(*ast.SelectorExpr); ok && depth == 0 {
+					addTarget(se.Sel.Name) // accessor ms.Exemplars(), ms.SetEmptySum(), dest.TraceState()
+				}
+			case *ast.SelectorExpr:
+				if depth == 0 {
+					addTarget(x.Sel.Name) // ms.orig.TimeUnixNano
+				}
+			case *ast.KeyValueExpr:
+				if id, ok := x.Key.(*ast.Ident); ok && depth == 0 {
+					addTarget(id.Name) // &otlpmetrics.NumberDataPoint_AsInt{AsInt: …}
+				}
+			}
+			return true
+		})
+	}
+	for _, st := range body {
+		visit(st, 0)
+	}
+	check(len(targets) == 1, "%s: case clause assigns %d different fields of the message %v (expected exactly one)", where, len(targets), targets)
+	var cs []string
+	for c := range calls {
+		cs = append(cs, c)
+	}
+	sort.Strings(cs)
+	return targets[0], cs
+}
+
 // caseLabels returns the string literals of the case clauses of the outermost `switch <key>` of the
-// first (outermost) ReadObjectCB callback in fd; nil if fd has no ReadObjectCB call.
-func caseLabels(where string, fd *ast.FuncDecl) []string {
+// first (outermost) ReadObjectCB callback in fd, and the per-clause analysis; nil if fd has no ReadObjectCB call.
+func caseLabels(where string, fd *ast.FuncDecl, fieldNamesOf func() map[string]bool, localFns map[string]*ast.FuncDecl, inJSONPkg bool) ([]string, []readerCase) {
 	var cb *ast.FuncLit
 	ast.Inspect(fd.Body, func(n ast.Node) bool {
 		if c, ok := n.(*ast.CallExpr); ok && cb == nil {
@@ -385,7 +483,7 @@ func caseLabels(where string, fd *ast.FuncDecl) []string {
 		return cb == nil
 	})
 	if cb == nil {
-		return nil
+		return nil, nil
 	}
 	ps := cb.Type.Params.List
 	check(len(ps) == 2 && len(ps[1].Names) == 1, "%s: ReadObjectCB callback does not have the parameters (iter, key)", where)
@@ -399,15 +497,27 @@ func caseLabels(where string, fd *ast.FuncDecl) []string {
 	})
 	check(sw != nil, "%s: no `switch %s` in the ReadObjectCB callback", where, key)
 	keys := []string{}
+	var cases []readerCase
+	names := fieldNamesOf()
 	for _, st := range sw.Body.List {
-		for _, e := range st.(*ast.CaseClause).List {
+		cc := st.(*ast.CaseClause)
+		var labels []string
+		for _, e := range cc.List {
 			bl, ok := e.(*ast.BasicLit)
 			check(ok && bl.Kind == token.STRING, "%s: case label that is not a string literal", where)
 			s, _ := strconv.Unquote(bl.Value)
 			keys = append(keys, s)
+			labels = append(labels, s)
+		}
+		if cc.List == nil { // default: must skip
+			continue
+		}
+		if names != nil {
+			target, calls := analyseClause(fmt.Sprintf("%s case %v", where, labels), cc.Body, names, localFns, inJSONPkg)
+			cases = append(cases, readerCase{labels, target, calls})
 		}
 	}
-	return keys
+	return keys, cases
 }
 
 func loadReaders(repo string) {
@@ -427,7 +537,15 @@ func loadReaders(repo string) {
 			return err
 		}
 		rel, _ := filepath.Rel(pdata, filepath.Dir(path))
-		for _, decl := range parse(path).Decls {
+		file := parse(path)
+		localFns := map[string]*ast.FuncDecl{}
+		for _, decl := range file.Decls {
+			if fd, ok := decl.(*ast.FuncDecl); ok && fd.Recv == nil {
+				localFns[fd.Name.Name] = fd
+			}
+		}
+		inJSONPkg := filepath.ToSlash(rel) == "internal/json"
+		for _, decl := range file.Decls {
 			fd, ok := decl.(*ast.FuncDecl)
 			if !ok || fd.Body == nil {
 				continue
@@ -436,15 +554,34 @@ func loadReaders(repo string) {
 			if fd.Recv != nil {
 				id = filepath.ToSlash(rel) + "." + recvName(fd)
 			}
-			keys := caseLabels(path+": "+id, fd)
+			mn, mapped := readerOf[id]
+			names := func() map[string]bool {
+				if !mapped || msgs[mn] == nil {
+					return nil
+				}
+				out := map[string]bool{}
+				for _, sl := range msgs[mn].slots {
+					for _, a := range sl.alts {
+						out[a.goName] = true
+					}
+				}
+				return out
+			}
+			// local helpers that are readers themselves must not be inlined as "local one-liners" of their own clauses
+			lf := map[string]*ast.FuncDecl{}
+			for n, f := range localFns {
+				if !readerCalls[n] && !(inJSONPkg && readerCalls["json."+n]) {
+					lf[n] = f
+				}
+			}
+			keys, cases := caseLabels(path+": "+id, fd, names, lf, inJSONPkg)
 			if keys == nil {
 				continue
 			}
-			mn, ok := readerOf[id]
-			check(ok, "%s: JSON reader %s (func %s) is not mapped to a message — extend readerOf", path, id, fd.Name.Name)
+			check(mapped, "%s: JSON reader %s (func %s) is not mapped to a message — extend readerOf", path, id, fd.Name.Name)
 			check(found[mn] == "", "two JSON readers for %s: %s and %s", mn, found[mn], id)
 			check(msgs[mn] != nil, "JSON reader %s: message %s not found in protogen", id, mn)
-			found[mn], msgs[mn].keys = id, keys
+			found[mn], msgs[mn].keys, msgs[mn].cases = id, keys, cases
 		}
 		return nil
 	})
@@ -455,6 +592,7 @@ func loadReaders(repo string) {
 	for req, data := range copyOf { // request messages are read by the reader of the *Data message
 		check(msgs[req] != nil && found[req] == "", "request message %s missing or with a reader of its own", req)
 		msgs[req].keys = msgs[data].keys
+		msgs[req].cases = msgs[data].cases
 	}
 }
 
@@ -553,6 +691,24 @@ func main() {
 		rs = append(rs, fmt.Sprintf("(%q, %d)", r[0], k))
 	}
 	fmt.Fprintf(&b, "]\n\ndef roots : List (String × Nat) := [%s]\n\n", strings.Join(rs, ", "))
+	// per `case` clause of every hand-written reader: (labels, assigned Go field, reader helpers called)
+	b.WriteString("/-- message name ↦ its reader's case clauses: (labels, assigned Go field, reader helpers called — sorted) -/\n")
+	b.WriteString("def readers : List (String × List (List String × String × List String)) := [\n")
+	for i, n := range mnames {
+		var cs []string
+		for _, c := range msgs[n].cases {
+			q := func(xs []string) string {
+				var o []string
+				for _, x := range xs {
+					o = append(o, strconv.Quote(x))
+				}
+				return "[" + strings.Join(o, ", ") + "]"
+			}
+			cs = append(cs, fmt.Sprintf("      (%s, %q, %s)", q(c.labels), c.target, q(c.calls)))
+		}
+		fmt.Fprintf(&b, "  (%q, [\n%s])%s", n, strings.Join(cs, ",\n"), sep(i, len(mnames)))
+	}
+	b.WriteString("]\n\n")
 	b.WriteString("def schema : Schema := { msgs := msgs, enums := enums, roots := roots }\n\nend OtelVerif.Gen.OtlpSchema\n")
 	fmt.Print(b.String())
 }
